@@ -139,7 +139,12 @@ class Report(object):
 
     def violation(self, name, data, found=True):
         os.makedirs(REPLAYS, exist_ok=True)
-        path = os.path.join(REPLAYS, "%s_%s.json" % (self.pid, re.sub(r"\W+", "_", name)[:60]))
+        base = "%s_%s" % (self.pid, re.sub(r"\W+", "_", name)[:60])
+        path = os.path.join(REPLAYS, base + ".json")
+        n = 1
+        while any(p == path for p, _ in self.violations):
+            n += 1
+            path = os.path.join(REPLAYS, "%s_%d.json" % (base, n))
         data = dict(data)
         data["property"] = self.pid
         data["failing_input_found"] = found
@@ -171,7 +176,11 @@ class Report(object):
             json.dump(ev, open(os.path.join(EVID, self.pid + ".json"), "w"), indent=1, default=str)
         for k in self.known:
             print("KNOWN-FINDING: property=%s %s" % (self.pid, k))
+        seen = set()
         for path, found in self.violations:
+            if path in seen:
+                continue
+            seen.add(path)
             print("VIOLATION property=%s replay=%s%s" % (self.pid, path, "" if found else " no-failing-input-found"))
         print("%s: obligations %d/%d, evaluations %d, violations %d, %.1fs" % (
             self.pid, self.discharged, self.obligations, self.evaluations, len(self.violations), time.time() - self.t0))
